@@ -65,6 +65,10 @@ def path_padding_param(scalar_input: bool, lenop: int, lenip: int, start: int):
     pad_before = 0
     pad_behind = 0
 
+    # numpy integers of small width would overflow or wrap around in the index arithmetic
+    if isinstance(start, np.integer):
+        start = int(start)
+
     # start='auto': apply to all if scalar, append if vector
     if start == "auto":
         if scalar_input:
